@@ -94,7 +94,7 @@ func (cx *Ctx) checkXSBool(r *Report, rule string, only map[string]bool) {
 		if !ok {
 			return ""
 		}
-		k := fieldOwner(fa.X.Type()) + "." + fieldVar(fa.X.Type(), fa.Field).Name()
+		k := fieldOwner(fa.X.Type()) + "." + fname(fieldVar(fa.X.Type(), fa.Field))
 		if xsBoolFields[k] {
 			return k
 		}
@@ -422,7 +422,7 @@ func checkC05(cx *Ctx, r *Report) {
 	for _, fn := range w.Funcs {
 		for _, st := range fx.info(fn).stores {
 			if fa, ok := st.Addr.(*ssa.FieldAddr); ok && fieldOwner(fa.X.Type()) == "serviceprovider.ServiceProvider" {
-				fname := fieldVar(fa.X.Type(), fa.Field).Name()
+				fname := fname(fieldVar(fa.X.Type(), fa.Field))
 				r.Check(w.FuncKey(fn) == kNewSP, "R-WHO", "ServiceProvider."+fname+"@"+w.FuncKey(fn), w.InstrPos(st), "written by the constructor only", "ServiceProvider."+fname+" is written outside NewServiceProvider: the verification key / metadata of a registered provider can change after registration")
 			}
 		}
@@ -441,12 +441,40 @@ func checkC05(cx *Ctx, r *Report) {
 }
 
 // isFreshError: v is certainly a non-nil error (error constructor result or package-level error variable).
-func isFreshError(v ssa.Value) bool {
+// gFacts: the facts of the loaded program (set in main), for helpers that have no receiver.
+var gFacts *Facts
+
+func isFreshError(v ssa.Value) bool { return isFreshErrorDepth(v, 0) }
+
+func isFreshErrorDepth(v ssa.Value, depth int) bool {
 	switch x := v.(type) {
 	case *ssa.Call:
 		switch calleeName(x) {
 		case "fmt.Errorf", "errors.New", "errors.Join":
 			return true
+		}
+		// a module helper / local closure every return of which makes an error: missing := func(name string) error { return fmt.Errorf(...) }
+		if depth < 3 && gFacts != nil {
+			f := calleeOf(x)
+			if f == nil && !x.Call.IsInvoke() {
+				if _, isB := x.Call.Value.(*ssa.Builtin); !isB {
+					if tg, ok := gFacts.funcTargets(x.Call.Value); ok && len(tg) == 1 {
+						f = tg[0]
+					}
+				}
+			}
+			if f != nil && f.Blocks != nil && f.Pkg != nil && isModulePath(f.Pkg.Pkg.Path()) && f.Signature.Results().Len() == 1 && isErrorType(f.Signature.Results().At(0).Type()) {
+				rets := returnsOf(f)
+				all := len(rets) > 0
+				for _, ret := range rets {
+					if !isFreshErrorDepth(ret.Results[0], depth+1) {
+						all = false
+					}
+				}
+				if all {
+					return true
+				}
+			}
 		}
 	case *ssa.UnOp:
 		if _, ok := x.X.(*ssa.Global); ok && x.Op == token.MUL {
